@@ -23,6 +23,8 @@ def value_multisets(tier, rnd, max_size=3):
              # dict lists whose element dicts differ in keys: merging gives TypedDicts with optional fields, merged again below
              [{"a": 1, "b": "x"}, {"a": 2}], [{"a": 3, "c": 2.5}, {"a": 4}], [{"a": 1}, {"b": "s"}], {"p": {"a": 1, "b": "x"}}, {"p": {"a": 2}}, {"p": {"c": 1.5}}]
     import collections
+    # instances of a class that evaluates false, as dict keys / tuple elements
+    core += [{corpus.FX.Falsy(): 1}, (corpus.FX.Falsy(),), [corpus.FX.Falsy]]
     # an empty container next to a populated container of a *related* kind (subclass origin), both orders
     core += [collections.defaultdict(int, {"a": 1}), collections.defaultdict(list), collections.defaultdict(int, {1: 2})]
     pairs = list(itertools.combinations_with_replacement(core, 2))
@@ -34,6 +36,8 @@ def value_multisets(tier, rnd, max_size=3):
     tup = [(), (1,), (1, 2), (1, 2, 3), (1, 2, 3, 4), (1, 2, 3, 4, 5), (1, 2, 3, 4, 5, 6)]
     groups = [tuple(tup), tuple(tup[1:] + tup[:1]), tuple(tup[1:4] + tup[:1] + tup[4:]), tuple([x] for x in (1, "s", 1.5, b"b", None, True, corpus.FX.Left())),
               tuple(tup[:3]), (0, "s", 1.5, b"b", None, True, corpus.FX.Left()), tuple({"k": x} for x in (1, "s", 1.5, b"b", None, True, corpus.FX.Left()))]
+    fz = corpus.FX.Falsy
+    groups += [((fz(),), (fz(), fz()), ("a",), ("a", "b"), ("a", "b", "c"), ("a", "b", "c", "d")), ({fz(): 1}, {"a": "x"}), ({"a": "x"}, {fz(): 1})]
     groups += [tuple([g]) for g in (list(tup), list(tup[1:] + tup[:1]))]     # the same unions one level down (List[Union[...]])
     return singles + pairs + triples + extra + groups
 
